@@ -106,7 +106,7 @@ class Driver:
         k = ev["k"]
         if k == "raise_eval":
             return "raise"
-        d = {"duration": self.beats(ev["dur"])}
+        d = {"duration": self.beats(ev.get("dur", self.U))}
         if "active" in ev:
             d["active"] = ev["active"]
         if k == "raise_ctor":
